@@ -15,3 +15,19 @@ Theorem C10_vars FV d vals :
   tv_rows FV d vals = option_map (fun rows => map fst (filter (fun r : row => snd r) rows)) (tt_rows FV d vals).
 Proof. exact (TableFilter.C10_vars FV d vals). Qed.
 Print Assumptions C10_partition. Print Assumptions C10_filter.
+
+(** the table the binary prints, end to end over the pipeline model [cli]: whenever it prints, there is
+    a duplicate-free column list FV (the free variables, one header name each) and a row list such that
+    every total assignment matches exactly one row, that row's result is the value of the printed
+    diagram, the printed rows are those the filter keeps and the -v lines are the true rows *)
+From Rsbdd Require Import Syntax.Lexer Cli.Pipeline Cli.PipelineFacts.
+Theorem C10_cli fuel uc o ordfile txt out : cli fuel uc o ordfile txt = CliOk out ->
+  exists FV rows, NoDup FV /\ tt_rows FV (out_diagram out) (all_any FV) = Some rows /\
+    out_rows out = filter (fun r : row => agrees (o_filter o) (snd r)) rows /\
+    out_true out = map fst (filter (fun r : row => snd r) rows) /\
+    length (out_header out) = length FV /\
+    forall s, exists r, In r rows /\ matches FV s (fst r) /\ snd r = beval s (out_diagram out) /\
+                        forall r', In r' rows -> matches FV s (fst r') -> r' = r.
+Proof. exact (C10_cli_table fuel uc o ordfile txt out). Qed.
+Theorem C10_bench {A} (ev : unit -> A) k d0 : 1 <= k -> repeat_eval k ev d0 = ev tt.
+Proof. exact (TableFilter.C10_bench ev k d0). Qed.
